@@ -640,6 +640,17 @@ def run_shard(shard):
                                         rv = repr(e)
                                     if rv != inst.scheme:
                                         add_violation(res, "C13:scheme-return", f"{cfg}: returned {val!r} -> {rv}, unit reports {inst.scheme}", case)
+                                elif val is not None:
+                                    # the read-back was lost or garbled: whatever is returned must not read as a scheme
+                                    from dali.exceptions import ResponseError, MissingResponse
+                                    try:
+                                        rv = val.value
+                                        if rv is not None:
+                                            add_violation(res, "C13:scheme-fault-value", f"{cfg} with fault {bus.injected}: the returned object reads as {rv!r}", case)
+                                    except (ResponseError, MissingResponse):
+                                        pass
+                                    except Exception as e:
+                                        add_violation(res, "C13:scheme-fault-unrelated-exception", f"{cfg} with fault {bus.injected}: reading the returned object raised {e!r}", case)
                                 res["distinct"].add(("scheme", scheme, refuse, bool(bus.injected)))
                             res["states"] += 1
         for bad in (5, 255, -1, 6):
